@@ -92,11 +92,40 @@ def generate(doc: dict, root: Path, package: str, core: str | None = None, force
     return res
 
 
+REACH: dict[str, set[int]] = {}      # shipped runtime file (relative to src/) -> lines executed inside emitted clients
+_CORE_BYTES: dict[str, bytes] = {}
+
+
+def _absorb_reach(job: dict, reach: dict) -> None:
+    """Lines executed in `<core package>/x.py` count for the shipped core/x.py when the copy is byte-identical."""
+    src_core = common.REPO_SRC / "pyopenapi_gen" / "core"
+    for p in job.get("packages", []):
+        core_dir = Path(job["root"]).joinpath(*(p.get("core") or p["pkg"] + ".core").split("."))
+        for f, lines in reach.items():
+            fp = Path(f)
+            try:
+                rel = fp.relative_to(core_dir)
+            except ValueError:
+                continue
+            shipped = src_core / rel
+            key = str(rel)
+            try:
+                if key not in _CORE_BYTES:
+                    _CORE_BYTES[key] = shipped.read_bytes()
+                if fp.read_bytes() != _CORE_BYTES[key]:
+                    continue
+            except OSError:
+                continue
+            REACH.setdefault(f"pyopenapi_gen/core/{rel}", set()).update(lines)
+
+
 def run_probe(job: dict, workdir: Path, timeout: float = 300.0) -> dict:
     """Run probe.py under a fresh `python -I` (no PYTHONPATH, no user site); returns its JSON or {'probe_error':..}."""
     workdir.mkdir(parents=True, exist_ok=True)
     jp = workdir / "job.json"
     op = workdir / "out.json"
+    if os.environ.get("VERIF_REACH", "1") != "0":
+        job = dict(job, reach=True)
     jp.write_text(json.dumps(job))
     if op.exists():
         op.unlink()
@@ -110,6 +139,9 @@ def run_probe(job: dict, workdir: Path, timeout: float = 300.0) -> dict:
     if not op.exists():
         return {"probe_error": f"exit {r.returncode}: {r.stderr[-1500:]}"}
     try:
-        return json.loads(op.read_text())
+        res = json.loads(op.read_text())
     except Exception as e:
         return {"probe_error": f"bad json: {e}"}
+    if isinstance(res, dict) and "reach" in res:
+        _absorb_reach(job, res.pop("reach"))
+    return res
